@@ -303,7 +303,7 @@ Theorem C11_F40_parse_orig_unbalanced_refuted :
   WorkSpec.cases_nested [Save 0; Case 3; Push 1; Jump1; Break 2; Nop; Skip 1; Byte 1] = false /\
   parse [40; 37; 123; 124; 63; 41; 48; 49] = Ok (inl (StackError, 3%nat)) /\
   parse [40; 37; 123; 63; 41] = Ok (inl (StackError, 4%nat)) /\
-  parse [37; 123; 40; 48; 49; 125; 124; 63; 41] = Ok (inl (StackError, 6%nat)).
+  parse [37; 123; 40; 48; 49; 125; 124; 63; 41] = Ok (inl (StackError, 5%nat)).      (* since F43: at the '}' already, not at the '|' *)
 Proof. exact PatNestProofs.parse_orig_unbalanced_refuted. Qed.
 Print Assumptions C11_F40_parse_orig_unbalanced_refuted.
 
@@ -317,10 +317,122 @@ Print Assumptions C11_parse_output_nested.
 Theorem C11_compile_nested : forall a, wf a -> WorkSpec.cases_nested (compile a) = true.
 Proof. exact PatNestProofs.compile_nested. Qed.
 Print Assumptions C11_compile_nested.
-(* not vacuous: "(%{01}|?)02"; a '}' inside a group that closes a brace opened before it ("%{(01}%{|02)}03") and a '{'
-   right behind a ')' ("(01|%){02}03") are accepted as before and pass the check *)
+(* not vacuous: "(%{01}|?)02".  The two neighbouring shapes that were still accepted when this was written - a '}' inside a
+   group that closes a brace opened before it ("%{(01}%{|02)}03", F43) and a '{' right behind a ')' ("(01|%){02}03", F42) -
+   are rejected since the two repairs (see the end of this file); [parse_orig42] = the parser as it stood accepted them *)
 Example C11_parse_output_nested_nonvacuous :
   parse [40; 37; 123; 48; 49; 125; 124; 63; 41; 48; 50] = Ok (inr [Save 0; Case 5; Push 1; Jump1; Byte 1; Pop; Break 2; Nop; Skip 1; Byte 2]) /\
-  (exists p, parse [37; 123; 40; 48; 49; 125; 37; 123; 124; 48; 50; 41; 125; 48; 51] = Ok (inr p) /\ WorkSpec.cases_nested p = true) /\
-  (exists p, parse [40; 48; 49; 124; 37; 41; 123; 48; 50; 125; 48; 51] = Ok (inr p) /\ WorkSpec.cases_nested p = true).
+  (exists p, parse_orig42 [37; 123; 40; 48; 49; 125; 37; 123; 124; 48; 50; 41; 125; 48; 51] = Ok (inr p) /\ WorkSpec.cases_nested p = true) /\
+  (exists p, parse_orig42 [40; 48; 49; 124; 37; 41; 123; 48; 50; 125; 48; 51] = Ok (inr p) /\ WorkSpec.cases_nested p = true) /\
+  parse [37; 123; 40; 48; 49; 125; 37; 123; 124; 48; 50; 41; 125; 48; 51] = Ok (inl (StackError, 5%nat)) /\
+  parse [40; 48; 49; 124; 37; 41; 123; 48; 50; 125; 48; 51] = Ok (inl (StackInvalid, 6%nat)).
 Proof. exact PatNestProofs.parse_nested_nonvacuous. Qed.
+
+(* ---------------------------------------------------------------------------------------------------------------
+   The converse: every string the parser ACCEPTS is in the documented grammar and means its AST.
+   [read_pat] (Spec/PatRead.v) is an independent reader of the documented concrete syntax - a lexer and a
+   recursive-descent recogniser that share nothing with the model of the parser - from the bytes of a pattern string to
+   the AST of Spec/PatSyntax.v.  It is also the oracle of the correspondence check for every string the real parser
+   accepts ([accepted_ok]) or rejects ([documented]).
+
+   F42 / F43 (repaired, repo cc9193c and a8f7b6c; [parse_orig42] = the parser as it stood): the '{' arm looked at the
+   last atom only, so a '{' directly behind ')' rewrote the jump that ends the LAST alternative into Push, Jump after the
+   Break offsets were patched, and a '{' directly behind '{' rewrote the same jump twice; the '}' arm compared the depth
+   with zero, so an alternative could close a brace that was opened before its group.  Those strings are not in the
+   grammar ([read_pat] = None), and the first one matched bytes the pattern never looked at. *)
+From PV.Spec Require Import PatRead.
+From PV.Proofs Require PatReadProofs.
+Theorem C11_F42_brace_after_group_orig_refuted :
+  let s := [40; 48; 49; 124; 37; 41; 123; 48; 50; 125; 48; 51] in                 (* (01|%){02}03 *)
+  let p := [Save 0; Case 2; Byte 1; Break 2; Nop; Push 1; Jump1; Byte 2; Pop; Byte 3] in
+  parse_orig42 s = Ok (inr p) /\ read_pat s = None /\
+  run_exec (PatSemProofs.list_scan [0x01; 0x00; 0x02; 0x99] 0x1000) p 0x1000 [0] = Ok (true, [0x1000]) /\
+  parse s = Ok (inl (StackInvalid, 6%nat)) /\
+  let s2 := [37; 123; 123; 48; 49; 125; 125; 48; 50] in                           (* %{{01}}02 *)
+  parse_orig42 s2 = Ok (inr [Save 0; Push 1; Push 1; Jump1; Byte 1; Pop; Pop; Byte 2]) /\ read_pat s2 = None /\
+  parse s2 = Ok (inl (StackInvalid, 2%nat)).
+Proof. exact PatReadProofs.F42_brace_after_group_orig_refuted. Qed.
+Print Assumptions C11_F42_brace_after_group_orig_refuted.
+Theorem C11_F43_brace_closed_across_group_orig_refuted :
+  let s := [37; 123; 40; 48; 49; 125; 37; 123; 124; 48; 50; 41; 125; 48; 51] in   (* %{(01}%{|02)}03 *)
+  parse_orig42 s = Ok (inr [Save 0; Push 1; Jump1; Case 5; Byte 1; Pop; Push 1; Jump1; Break 2; Nop; Byte 2; Pop; Byte 3]) /\
+  read_pat s = None /\ parse s = Ok (inl (StackError, 5%nat)).
+Proof. exact PatReadProofs.F43_brace_closed_across_group_orig_refuted. Qed.
+Print Assumptions C11_F43_brace_closed_across_group_orig_refuted.
+
+(* [wfb] decides [wf]; the oracle [accepted_ok s atoms] of the correspondence check answers true exactly when the string is
+   in the grammar, its AST is well-formed and compiles to the atoms *)
+Theorem C11_wfb_decides_wf : forall a, wfb a = true <-> wf a.
+Proof. exact PatReadProofs.wfb_spec. Qed.
+Print Assumptions C11_wfb_decides_wf.
+Theorem C11_accepted_ok_spec : forall s atoms, accepted_ok s atoms = true <-> exists a, read_pat s = Some a /\ wf a /\ compile a = atoms.
+Proof. exact PatReadProofs.accepted_ok_spec. Qed.
+Print Assumptions C11_accepted_ok_spec.
+
+(* not vacuous: strings of the grammar in a spelling the printer never produces -  *""<tab>[00]<lf>{"hi"00}()(|)@zi1u4z'
+   (reading decision R1: whitespace and items that denote nothing between a jump and its brace), (%{01}|?)02,
+   ${%{${%{}}}}, (01|% {02})03 - are read, well-formed, accepted by the repaired parser and compiled as their AST says *)
+Example C11_reader_nonvacuous :
+  Forall (fun s => exists a p, read_pat s = Some a /\ wfb a = true /\ parse s = Ok (inr p) /\ p = compile a)
+    [ [42; 34; 34; 9; 91; 48; 48; 93; 10; 123; 34; 104; 105; 34; 48; 48; 125; 40; 41; 40; 124; 41; 64; 122; 105; 49; 117; 52; 122; 39];
+      [40; 37; 123; 48; 49; 125; 124; 63; 41; 48; 50];
+      [36; 123; 37; 123; 36; 123; 37; 123; 125; 125; 125; 125];
+      [40; 48; 49; 124; 37; 32; 123; 48; 50; 125; 41; 48; 51] ].
+Proof. exact PatReadProofs.accepted_nonvacuous. Qed.
+
+(* (a) The reader inverts the printer: the canonical spelling of a well-formed AST is read back as that AST.  An empty run
+   of question marks prints as nothing, so it cannot be read back (it compiles to nothing): [no_empty_wild]. *)
+Theorem C11_read_show : forall a, wf a -> no_empty_wild a = true -> read_pat (show a) = Some a.
+Proof. exact PatReadProofs.read_show. Qed.
+Print Assumptions C11_read_show.
+Theorem C11_read_show_empty_wild_refuted :
+  wf [IByte 1; IWild 0; IByte 2] /\ read_pat (show [IByte 1; IWild 0; IByte 2]) = Some [IByte 1; IByte 2].
+Proof. exact PatReadProofs.read_show_empty_wild_refuted. Qed.
+Print Assumptions C11_read_show_empty_wild_refuted.
+
+(* (b) THE CONVERSE OF THEOREM 2.  Every string of bytes the (repaired) parser accepts - in any spelling: hex digits of
+   either case, whitespace of every kind or none, leading zeros, "" and [0] between a jump and its brace - is in the
+   documented grammar, its AST is well-formed, and the pattern the parser produced is what the intended compiler makes of
+   that AST.  So "for every well-formed pattern string" in theorem 3 covers every accepted string. *)
+From PV.Proofs Require PatConverse.
+Theorem C11_parse_accepts_grammar : forall s p, Forall (fun ch => ch < 256) s -> parse s = Ok (inr p) ->
+  exists a, read_pat s = Some a /\ wf a /\ p = compile a.
+Proof. exact PatConverse.parse_accepts_grammar. Qed.
+Print Assumptions C11_parse_accepts_grammar.
+
+(* (c) Theorem 2 for EVERY spelling, not only the printer's: a string of the grammar whose AST is well-formed is accepted
+   and compiled as its AST says *)
+Theorem C11_parse_read_compile : forall s a, read_pat s = Some a -> wf a -> parse s = Ok (inr (compile a)).
+Proof. exact PatConverse.parse_read_compile. Qed.
+Print Assumptions C11_parse_read_compile.
+
+(* (b) and (c): the parser accepts exactly the well-formed strings of the documented grammar *)
+Theorem C11_parse_iff_grammar : forall s p, Forall (fun ch => ch < 256) s ->
+  (parse s = Ok (inr p) <-> exists a, read_pat s = Some a /\ wf a /\ p = compile a).
+Proof. exact PatConverse.parse_iff_grammar. Qed.
+Print Assumptions C11_parse_iff_grammar.
+
+(* (b) + theorem 3b: what an accepted string MEANS.  For every string the parser accepts the reader finds a well-formed AST,
+   and - outside the known class F34, when nothing but returns of closing braces is trimmed - Scanner::exec on the parsed
+   pattern returns true exactly when the structural semantics of that AST returns a log, with the captures of the log *)
+Theorem C11_accepted_string_means_ast : forall sc s p cursor save, Forall (fun ch => ch < 256) s -> parse s = Ok (inr p) ->
+  exists a, read_pat s = Some a /\ wf a /\ p = compile a /\
+    (scan_wf sc -> range_skip_in_last_alternative_with_suffix a = false -> trims_only_braces a = true -> cursor < W32 ->
+     exists ok save', run_exec sc p cursor save = Ok (ok, save') /\
+       match den_top sc a cursor with
+       | Some lg => ok = true /\ log_ok lg save save'
+       | None => ok = false
+       end).
+Proof. exact PatConverse.accepted_string_means_ast. Qed.
+Print Assumptions C11_accepted_string_means_ast.
+
+(* every iteration of the parser loop is one token of the independent lexer: it succeeds exactly when the item's limit holds
+   (skips < 16384, a < b, fewer than 255 captures), consumes exactly the token, appends the item's atoms and takes its slot *)
+Theorem C11_iteration_is_one_token : forall st c t it r, lex1 (c :: t) = Some (TItem it, r) -> c <> 63 ->
+  exists st1 u, PatConverse.eff st st1 (PatConverse.item_atoms it (p_save st)) (PatConverse.item_slots it) /\
+    if PatConverse.item_condb it (p_save st) then pstep st c t = inr (st1, r, u) else exists e, pstep st c t = inl e.
+Proof. exact PatConverse.pstep_of_lex1. Qed.
+Print Assumptions C11_iteration_is_one_token.
+Theorem C11_no_token_no_iteration : forall st c t, is_ws c = false -> lex1 (c :: t) = None -> exists e, pstep st c t = inl e.
+Proof. exact PatConverse.pstep_lex1_none. Qed.
+Print Assumptions C11_no_token_no_iteration.
